@@ -189,10 +189,14 @@ pub fn gen_graph_project(rng: &mut Rng, tier: Tier, ptr: usize) -> Project {
                 } else {
                     Ty::Prim("void")
                 };
-                match rng.below(3) {
+                match rng.below(6) {
                     0 => inner.cptr(),
                     1 => inner.mptr(),
-                    _ => inner.cptr().mptr(),
+                    2 => inner.cptr().mptr(),
+                    // arrays of pointers, pointers to arrays of pointers: still only references
+                    3 => inner.mptr().arr(rng.range(1, 8)),
+                    4 => inner.cptr().arr(2).arr(rng.range(1, 3)),
+                    _ => inner.mptr().arr(rng.range(1, 4)).cptr(),
                 }
             } else if packed {
                 Ty::Prim(*rng.pick(&["u8", "u16", "u32", "u64", "bool", "f32"]))
